@@ -11,6 +11,7 @@ import (
 	"os"
 	"os/exec"
 	"path/filepath"
+	"regexp"
 	"strings"
 	"time"
 
@@ -116,6 +117,13 @@ func (g *gen) primLit() string {
 	}
 }
 
+// a left operand of the form (...) + ("string literal") or ... + "" + (...)
+var nestedStringAdd = regexp.MustCompile(`\+ \("[^"]*"\)$|\+ "" \+ \(`)
+
+// an operand whose evaluation has no observable effect (literal or plain variable
+// holding a primitive-or-logged object is NOT ok: only literals)
+func (g *gen) pureLeaf() string { return g.primLit() }
+
 func (g *gen) nextProbe() int { g.probe++; return g.probe }
 
 func (g *gen) leaf() string {
@@ -177,8 +185,10 @@ func (g *gen) expr(d int) string {
 			op = commonBinOps[g.r.Intn(len(commonBinOps))]
 		}
 		l, rr := g.expr(d-1), g.expr(d-1)
-		if g.avoidH && op == "+" && strings.HasPrefix(rr, "`") {
-			rr = g.leaf()
+		if g.avoidH && op == "+" && (strings.HasPrefix(rr, "`") || nestedStringAdd.MatchString(l)) {
+			// known finding H: (x + "s") + R is re-associated to x + ("s" + R), which
+			// delays ToPrimitive(x) past the evaluation of R: keep R free of effects
+			rr = g.pureLeaf()
 		}
 		return fmt.Sprintf("(%s) %s (%s)", l, op, rr)
 	case 5, 6:
@@ -276,8 +286,8 @@ func (g *gen) expr(d int) string {
 		return fmt.Sprintf("!((%s) %s (%s))", g.expr(d-1), []string{"==", "!=", "===", "!==", "<", ">=", ","}[g.r.Intn(7)], g.expr(d-1))
 	default:
 		l, rr := g.expr(d-1), g.expr(d-1)
-		if g.avoidH && strings.HasPrefix(rr, "`") {
-			rr = g.leaf()
+		if g.avoidH {
+			rr = g.pureLeaf()
 		}
 		return fmt.Sprintf("(%s) + \"\" + (%s)", l, rr)
 	}
@@ -1245,6 +1255,7 @@ var knownInputs = []known{
 	{"B", "known-B-pow-special-cases-fold-to-1", "enum E { A = 1 ** (0/0) }\n$(1, E.A);", "$(1, 1 ** (0/0));", api.LoaderTS, false},
 	{"H", "known-H-string-addition-reassociation-reorders-toprimitive", "var ob = $o(900, 1);\n$(1, ob + \"\" + `x${$(2, \"t\")}`);", "var ob = $o(900, 1);\n$(1, ob + \"\" + `x${$(2, \"t\")}`);", api.LoaderJS, false},
 	{"I", "known-I-single-use-substitution-into-short-circuit-past-radix-bigint", "(function() {\n  function fn() { $(1, \"called\"); return 7; }\n  function t() { let x = fn(); return 0x0n && x; }\n  $(2, t());\n})();", "(function() {\n  function fn() { $(1, \"called\"); return 7; }\n  function t() { let x = fn(); return 0x0n && x; }\n  $(2, t());\n})();", api.LoaderJS, true},
+	{"H2", "known-H2-string-addition-reassociation-drops-empty-string-conversion", "var ob = $o(900, 1);\n$(1, ob + \"\" + ($(2, \"t\") + \"\" + 1));", "var ob = $o(900, 1);\n$(1, ob + \"\" + ($(2, \"t\") + \"\" + 1));", api.LoaderJS, false},
 	{"G", "known-G-pow-finite-result-not-within-rounding-error", "enum E { A = 1e300 ** 0.1 }\n$(1, E.A);", "$(1, 1e300 ** 0.1);", api.LoaderTS, false},
 }
 
@@ -1282,6 +1293,10 @@ func runGlue(r *Rng, n int, tier string, st *Stats) {
 	st.Extra["avoid_known_B"] = avoid["B"]
 	st.Extra["avoid_known_H"] = avoid["H"]
 	st.Extra["avoid_known_I"] = avoid["I"]
+	st.Extra["avoid_known_H2"] = avoid["H2"]
+	if avoid["H2"] {
+		avoid["H"] = true // same family: the generator avoids both shapes
+	}
 
 	nprog := n / 4
 	if nprog < 20 {
